@@ -253,6 +253,7 @@ class Canon(object):
                 for n in ast.walk(fn):          # new helpers and nested closures: guard-clause predicates become one boolean expression
                     if isinstance(n, ast.FunctionDef) and (n is not fn or fn.name not in VOCAB_FUNCS):
                         self._single_return_predicate(n)
+                        self._returned_genexp_to_generator(n)
         for m in self.prog.modules.values():
             for fn, cls in self._functions(m):
                 backup = copy.deepcopy(fn.body)
@@ -297,6 +298,46 @@ class Canon(object):
         ast.copy_location(new, body[-1])
         ast.fix_missing_locations(new)
         fdef.body = fdef.body[:len(fdef.body) - len(body)] + [new]
+        self.stats['spellings'] += 1
+
+    def _returned_genexp_to_generator(self, fdef):
+        """def g(a): PRE; return (e for x in it if c ...)   ->   def g(a): PRE; for x in it: if c: yield e
+        for a new helper / nested closure whose PRE is plain assignments and whose only return is that last statement: the
+        iterator handed back produces the same elements either way (the two differ only in WHEN the pure prologue runs), and the
+        generator is the form the loop fuser and the interpreter summarise."""
+        body = body_nodoc(fdef)
+        if not body or not isinstance(body[-1], ast.Return) or not isinstance(body[-1].value, ast.GeneratorExp):
+            return
+        if fdef.decorator_list or len(returns_in(fdef)) != 1 or is_generator(fdef):
+            return
+        if not all(isinstance(st, (ast.Assign, ast.AnnAssign, ast.Pass)) for st in body[:-1]):
+            return
+        ge = body[-1].value
+        if any(g.is_async for g in ge.generators) or any(isinstance(n, (ast.Yield, ast.YieldFrom, ast.Await, ast.NamedExpr)) for n in ast.walk(ge)):
+            return
+        # names bound by the comprehension live in its own scope: they must not collide with anything the function binds or reads
+        targets = set()
+        for g in ge.generators:
+            targets |= {n.id for n in ast.walk(g.target) if isinstance(n, ast.Name)}
+        outside = set(a.arg for a in fdef.args.args + fdef.args.kwonlyargs + fdef.args.posonlyargs)
+        for st in body[:-1]:
+            outside |= all_names(st)
+        if fdef.args.vararg:
+            outside.add(fdef.args.vararg.arg)
+        if fdef.args.kwarg:
+            outside.add(fdef.args.kwarg.arg)
+        if targets & (outside | all_names(ge.generators[0].iter)):
+            return
+        ret = body[-1]
+        inner = [ast.Expr(value=ast.Yield(value=ge.elt))]
+        for g in reversed(ge.generators):
+            for c in reversed(g.ifs):
+                inner = [ast.If(test=c, body=inner, orelse=[])]
+            inner = [ast.For(target=g.target, iter=g.iter, body=inner, orelse=[])]
+        new = inner[0]
+        _relocate(new, ret)
+        ast.fix_missing_locations(new)
+        fdef.body = fdef.body[:len(fdef.body) - 1] + [new]
         self.stats['spellings'] += 1
 
     def _functions(self, m):
